@@ -22,6 +22,16 @@ CLAIMS = {
  'C08': ("Lock-release lemma, zero annotation: for every function and closure of the library that performs a mutex operation (list recomputed from SSA on each run, 108 on the current tree) and for every control-flow path: "
          "no return and no loop back-edge is reached with a different lock state than on entry, no Unlock/RUnlock of an unheld mutex, no re-lock of a mutex the function already holds, Cond.Wait only with its Locker held.",
          "Not decided: that each blocking call returns within its context / close timeout / keepalive bound (timing and liveness are outside what function contracts express); callees without contract are assumed lock-balanced, which is exactly what this sweep proves for each of them. Assumed lock identities (typeassume) are listed in the evidence.", "6/C08"),
+ 'C11': ("Contract proof of the enumeration tables of the converter layer: toResultCode/toResultCodeProto/toQoS/toQoSProto succeed exactly on the constants go/types reports for the wire and library enum types "
+         "(read from the type-checked packages on every run) and fail on every other int32/uint8 value; composition lemmas over the real bodies prove the two directions mutually inverse up to the documented wire aliasing (NORMAL_CLOSURE = SUCCEEDED = 0). "
+         "Exhaustive over the whole integer range by SMT, not by enumeration.",
+         "Only the 'mapping between result codes/QoS values and the wire enumerations is total in both directions' conjunct is decided. NOT decided: the field-by-field round trip of the message converters and the external gogo-protobuf / jsonpb marshalling (third-party, reflection); byte counts of the codecs.", "6/C11"),
+ 'C17': ("Contract proof, for all parameter values, of NegotiationParams.Validate (returns nil exactly when encoding and compression type are known, level is absent or in 0-9, window bits absent or in 0-32; defaults the level to 6 only when a type is named; otherwise leaves the parameters untouched) "
+         "and NegotiationParams.CompressConfig (Enable/Level/WindowBits/DisableContextTakeover are the stated function of the parameters, independent of the base config whenever type, level and window are named).",
+         "NOT decided: the three carriers (URL query, key/value map, QUIC binary form) go through encoding/json reflection and are outside the verifier's reach; DialConfig.NegotiationParams takes the address of struct fields (interior pointers escape) and is outside the supported subset, so 'as every dialer produces' is an assumption here.", "6/C17"),
+ 'C19': ("Contract proof of the multi-transport routing kernel: the monitor invariant of Transport.mu (selected id is a member, every member non-nil) is established by NewTransport/validateConfig (non-member InitialTransportID rejected), "
+         "preserved by transportIDLoop for every id the scheduler may emit (members, non-members, the empty id), and therefore Write/AsUnreliable/NegotiationParams cannot dereference a nil member; LastUsedPoller.Get and RoundRobinPoller.Get are panic-free and RoundRobinPoller stays in bounds and returns a listed id.",
+         "NOT decided: 'every message read from any member is returned exactly once' (goroutine fan-in over channels), Close-closes-every-member and the counter sums (range-over-map with external calls; not yet under contract). Precondition: no nil transport in the configured map.", "6/C19"),
 }
 NA_REASON_DEFAULT = "check not built yet (framework under construction; see DESIGN.md section 8)"
 NA = {}
